@@ -188,7 +188,40 @@ def checkpoint():
     expect("a save of another state recorded", "CheckpointTrace", "CheckpointTrace.cfg", t, False, wrap)
 
 
+def swarm_binding():
+    import random
+
+    from harness import swarm
+
+    rng = random.Random(11)
+    tr = None
+    while tr is None:
+        evs, _meta = swarm.swarm_trace(rng, direct=False)
+        steps = [i for i, e in enumerate(evs) if e["e"] == "step" and len(e["hist"]) > e["np"] and min(e["best"]) < 99]
+        if len(steps) >= 2 and not any(e["e"] == "reset" for e in evs):
+            tr = [{k: v for k, v in e.items() if k != "histsame"} for e in evs]
+    expect("original execution", "SwarmTrace", "SwarmTrace.cfg", tr, True)
+    i = steps[0]
+    t = copy.deepcopy(tr)
+    t[i]["best"][0] = t[i]["best"][0] + 1
+    expect("one best loss of the table altered", "SwarmTrace", "SwarmTrace.cfg", t, False)
+    t = copy.deepcopy(tr)
+    t[i]["start"] -= 1
+    expect("window start one row early", "SwarmTrace", "SwarmTrace.cfg", t, False)
+    if tr[i]["np"] > 1:
+        t = copy.deepcopy(tr)
+        t[i]["g"] = t[i]["g"] % t[i]["np"] + 1
+        expect("another particle recorded as global best", "SwarmTrace", "SwarmTrace.cfg", t, False)
+    t = copy.deepcopy(tr)
+    t[steps[1]]["hist"][0] = (t[steps[1]]["hist"][0] + 1) % 5
+    expect("history shown is not an extension of the previous one", "SwarmTrace", "SwarmTrace.cfg", t, False)
+    t = copy.deepcopy(tr)
+    del t[0]
+    expect("set-up event removed", "SwarmTrace", "SwarmTrace.cfg", t, False)
+
+
 if __name__ == "__main__":
+    swarm_binding()
     calibration()
     rl_exchange()
     dedup()
